@@ -37,7 +37,43 @@ class RecMon(Monitor):
                             logl=np.asarray(c["logl"], dtype=float).copy(), w=self.w, calls=int(c["calls"]), hlen=len(st._history["beta"])))
 
 
+def run_con(case, shift):
+    """Constructed checkpoint (tsim/constructed.py) for the likelihood L+shift - stored logL + shift, stored logZ_t + beta_t*shift - resumed by a real run
+    on a target shifted by the same constant.  Its last temperature step lands at a chosen beta*, mostly inside the termination window (1-1e-4, 1)."""
+    from .. import constructed, targets as T
+    from ..world import World, forget
+
+    N = case["N"]
+    built = constructed.build(case, shift=shift, n_total=N)
+    if built is None:
+        return None
+    blob, hist, target = built
+    m = RecMon()
+    cfg = dict(n_particles=N, ess_ratio=case["ess_ratio"], clustering=False, sample=case.get("kernel", "tpcn"), random_state=case["seed"] % 1000)
+    tg = dict(T.spec_gauss(d=case["d"], lo=0.0, hi=1.0, mu=0.5, sig=0.2), kind="gauss", shift=shift)
+    if case.get("noise"):
+        tg["noise"] = case["noise"]
+    w = World(dict(seed=case["seed"], target=tg, cfg=cfg), monitors=[m])
+    info = dict(exc=None, completed=False)
+    s = None
+    with w.incarnation() as inc:
+        path = constructed.write(w, blob)
+        s = inc.new_sampler()
+        try:
+            s.run(n_total=N, resume_state_path=path, progress=False)
+            info["completed"] = True
+        except Exception as e:
+            info["exc"] = f"{type(e).__name__}: {str(e)[:120]}"
+            forget(e)
+    if w.escapes:
+        raise RuntimeError("; ".join(w.escapes))
+    ev = float(s.evidence()[0]) if info["completed"] else None
+    return dict(it=m.it, rng=[r.digest() for r in w.rng_runs], rng_n=[r.n for r in w.rng_runs], ev=ev, info=info, w=w, state=s.state)
+
+
 def run(case, shift):
+    if case.get("constructed"):
+        return run_con(case, shift)
     c = copy.deepcopy(case)
     c["target"]["shift"] = shift
     m = RecMon()
@@ -139,6 +175,10 @@ def knife_edge(A, B, d, case):
 def run_case(case):
     c = case["c"]
     A = run(case, 0.0)
+    if A is None:
+        return dict(violations=[], stats=dict(constructed_unsuitable=1), probes={}, digest="unsuitable", distinct_key=None, nontrivial=False)
+    if case.get("constructed"):
+        case = dict(case, cfg=dict(sample=case.get("kernel"), clustering=False, n_particles=case["N"], ess_ratio=case["ess_ratio"]), n_total=case["N"], target=dict(kind="constructed", d=case["d"]), eval="scalar", scenario="constructed")
     B = run(case, c)
     violations, stats, probes = [], {}, {}
     stats["iterations"] = len(A["it"])
@@ -167,7 +207,10 @@ def run_case(case):
         if repro == 3 and fork == 0 and abs(c) > 1.0:
             for k in range(6):
                 cn = copy.deepcopy(case)
-                cn["target"]["noise"] = dict(amp=2.0 ** -53 * abs(c), seed=k)
+                if cn.get("constructed"):
+                    cn["noise"] = dict(amp=2.0 ** -53 * abs(c), seed=k)
+                else:
+                    cn["target"]["noise"] = dict(amp=2.0 ** -53 * abs(c), seed=k)
                 if compare(A, run(cn, 0.0), 0.0) is not None:
                     fork += 1
                     probes["noise_twin_fork"] = 1
@@ -197,10 +240,23 @@ def cases(seed, tier):
         c = wp.std_case(r, sch.np_seed(f"s{k}"), kinds=("gauss", "bimodal", "expedge", "hole", "corr"), scenarios=("plain", "plain", "plain", "crash_resume"), evals=("scalar", "vector"), blobs=(0,), boundaries=True)
         c["c"] = r.choice([s * 2.0 ** e for s in (-1, 1) for e in range(-3, 11)] + [round(r.uniform(-1000, 1000), 3), round(r.uniform(-10, 10), 6)])
         out.append(c)
+    for k in range(n // 5):
+        r = random.Random(sch.np_seed(f"c10.con{k}"))
+        star = r.choice([1 - 3e-5, 1 - 5e-5, 1 - 2e-5, 1 - 9e-5, 1 - 7e-5, 1 - 2e-4, 0.999, r.uniform(0.5, 0.99)])
+        ratio = r.choice([1.0, 1.0, 2.0])
+        out.append(dict(constructed=True, seed=sch.np_seed(f"con{k}") % (2**31), d=r.choice([1, 2]), N=r.choice([16, 32, 64]), ess_ratio=ratio, T=int(ratio) + r.choice([1, 2, 3]),
+                        spread=r.choice([1.0, 3.0, 10.0]), beta_star=star, kernel=r.choice(["tpcn", "rwm"]),
+                        c=r.choice([s * 2.0 ** e for s in (-1, 1) for e in range(0, 11)] + [round(r.uniform(-1000, 1000), 3)])))
     return out
 
 
 def shrink(case):
+    if case.get("constructed"):
+        if case["T"] > 1:
+            yield dict(case, T=1)
+        if abs(case["c"]) > 1:
+            yield dict(case, c=1.0 if case["c"] > 0 else -1.0)
+        return
     for c in wp.generic_shrink(case):
         yield c
     if abs(case["c"]) > 1:
